@@ -172,6 +172,9 @@ class Result:
         if self.errors:
             for e in self.errors:
                 lines.append(f"ANALYSIS-ERROR property={self.prop} {e}")
+            for n_ in self.notes:
+                if n_.startswith("second reading"):
+                    lines.append(f"NOTE property={self.prop} {n_[:700]}")
             code = 2
         if n_viol:
             code = 1
